@@ -47,7 +47,7 @@ func projTSAF(a *astits.PacketAdaptationField, out bool) M {
 		m["opcr"] = projCRW(a.OPCR, true)
 	}
 	if a.HasSplicingCountdown {
-		m["splice"] = []interface{}{a.SpliceCountdown & 0xff}
+		m["splice"] = []interface{}{a.SpliceCountdown} // signed: -128..127
 	}
 	if a.HasTransportPrivateData {
 		m["priv"] = []interface{}{ints(a.TransportPrivateData)}
@@ -160,7 +160,7 @@ func randAF(r *rng, mask int, xmask int) *astits.PacketAdaptationField {
 		a.HasOPCR, a.OPCR = true, randCR(r)
 	}
 	if mask&4 != 0 {
-		a.HasSplicingCountdown, a.SpliceCountdown = true, r.intn(256)
+		a.HasSplicingCountdown, a.SpliceCountdown = true, r.intn(256)-128
 	}
 	if mask&8 != 0 {
 		n := r.intn(20)
@@ -345,7 +345,7 @@ func runTS(line []byte, rec *recorder) {
 			finishPacket(p, r, 0)
 			vec("clock", p)
 		}
-		for sp := 0; sp < 256; sp++ {
+		for sp := -128; sp < 128; sp++ {
 			h := hdr()
 			h.HasAdaptationField, h.HasPayload = true, true
 			p := &astits.Packet{Header: h, AdaptationField: &astits.PacketAdaptationField{HasSplicingCountdown: true, SpliceCountdown: sp}}
